@@ -19,7 +19,8 @@ for e in kf:
     subprocess.run(["git", "-C", "/repo", "worktree", "remove", "--force", w], capture_output=True)
     subprocess.run(["git", "-C", "/repo", "worktree", "add", "-q", "--detach", w, "HEAD"], check=True)
     try:
-        r = subprocess.run(["git", "-C", w, "revert", "--no-commit", commit], capture_output=True, text=True)
+        more = [c for x in kf if x["status"] == "fixed" and x["commit"] == commit and x["property"] == pid for c in x.get("revert_with", [])]
+        r = subprocess.run(["git", "-C", w, "revert", "--no-commit"] + more + [commit], capture_output=True, text=True)
         if r.returncode != 0:
             print(pid, commit, "REVERT CONFLICT", r.stderr[:150].replace("\n", " ")); continue
         p = subprocess.run(["./check", pid], cwd=V, env=dict(os.environ, VERIF_REPO=w), capture_output=True, text=True, timeout=1500)
